@@ -50,12 +50,16 @@ def mk_db(w):
         db.add_to_preamble(*[S(x) for x in w[1]])
     return db
 
+def _s(x):
+    """a string observable that is not a str (None, a list ...) must not be mistaken for a string"""
+    return x if isinstance(x, str) else '<not a str: %r>' % (x,)
+
 def enc_db(db):
     ents = []
     for key, e in db.entries.items():
-        ents.append([key, e.original_type, [[k, v] for k, v in e.fields.items()],
+        ents.append([_s(key), _s(e.original_type), [[_s(k), _s(v)] for k, v in e.fields.items()],
                      [[role, [enc_person(p) for p in ps]] for role, ps in e.persons.items()]])
-    return [ents, list(db.preamble_list)]
+    return [ents, [_s(x) for x in db.preamble_list]]
 
 def with_db(w, f):
     """run f(db) in strict mode with the outcome classified like the model's res"""
@@ -220,10 +224,38 @@ FUNCS = {
     18: ("parse_string(text, 'bibtex') as a database", impl_read_bibtex, ('T', 'S')),
 }
 
+def _ws(cps):
+    """collapse whitespace runs: the layout of the .bib text (indentation, line ends) is not an observable of the property"""
+    out, prev = [], False
+    for c in cps:
+        if chr(c).isspace():
+            if not prev:
+                out.append(32)
+            prev = True
+        else:
+            out.append(c); prev = False
+    return out
+
+def _xml_canon(x):
+    tag, i, text, cs = x
+    if cs:      # the text of an element with children is layout; the reader only strip()s it
+        text = [[ord(ch) for ch in S(text[0]).strip()]] if text else text
+    return [tag, i, text, [_xml_canon(c) for c in cs]]
+
 def canon(fn, r):
     if fn in (15, 16):
         return []          # no model: the oracle alone judges these
-    return canon_res(r)
+    r = canon_res(r)
+    try:
+        if fn == 4 and r[0] == 0:
+            return [0, _ws(r[1])]
+        if fn == 3:
+            return _ws(r)
+        if fn == 8 and r[0] == 0:
+            return [0, _xml_canon(r[1])]
+    except Exception:
+        pass
+    return r
 
 # ---------------------------------------------------------------------------------------
 # the property's domain, in plain Python
@@ -520,7 +552,8 @@ GOOD_VALUES = [v for v in VALUES if balanced(v) and ws_normalised(v)]
 FIVE_VALUES = ['a#b', '100%', 'A & B', 'a_b', 'a~b', '~', '~ x', '#', '\\#', 'x\\_y', '%%', '{~}']
 NAMES = ['Knuth', 'Donald E. Knuth', 'de la Fontaine, Jean', 'de la Fontaine, Jr., Jean', 'von Neumann, John', '{Barnes and Noble}', 'Jean de la Fontaine',
          '{\\"O}zt{\\"u}rk, A. B.', 'van der Waals', 'Ludwig van Beethoven', 'A. B. {\\relax C}harles', 'Last, First Middle More', 'de La, X', '{von} Hagen, {\\"a}b',
-         'Smith, Jr, A', "d'Alembert, Jean le Rond", 'Mac-Donald, J.-P.']
+         'Smith, Jr, A', "d'Alembert, Jean le Rond", 'Mac-Donald, J.-P.',
+         "Charles Louis Xavier Joseph Marie de la Vall{\\'e}e Poussin", 'von der zu und auf Hohen Lohe Waldenburg Schillingsf{\\"u}rst, Jr Sr III IV V, Aa Bb Cc Dd Ee Ff']
 TYPES = ['book', 'Article', 'inProceedings', 'MISC', 'x-y.z']
 FIELDS = ['title', 'Title', 'YEAR', 'note', 'Journal', 'x-ref', 'type', 'Type', 'b2', 'crossref']
 KEYS = ['k', 'Key1', 'knuth:1984', 'a', 'e', 'Case', 'x.y-z', 'K2', 'lamport94', 'it', 'T', '"q', 'k{1', 'UPPER']
@@ -549,9 +582,9 @@ def rand_person(rng, bad=False):
         return parse_person(rng.choice(NAMES))
     k = lambda lo, hi: [rand_token(rng, bad) for _ in range(rng.randint(lo, hi))]
     first = k(0, 1)
-    middle = k(0, 2) if first else []
+    middle = k(0, rng.choice([2, 2, 5])) if first else []
     von = [t[0].lower() + t[1:] if t[0].isalpha() else 'v' + t for t in k(0, 2)] if rng.random() < 0.4 else []
-    last = [t[0].upper() + t[1:] if t[0].isalpha() else 'L' + t for t in k(1, 2)]
+    last = [t[0].upper() + t[1:] if t[0].isalpha() else 'L' + t for t in k(1, rng.choice([2, 2, 5]))]
     jr = k(0, 1) if rng.random() < 0.2 else []
     if bad:
         von = k(0, 2); last = k(0, 2)
@@ -844,7 +877,7 @@ def gen(tier, rng):
 RULE = ('pinned: the inputs of the findings (F18 five characters, FC02a role spelling, FC02b field "type", FC02c repr), the trailing-backslash tokens of DESIGN.md, empty databases; '
         'exhaustive: Writer.quote/check_braces on every string over {a { } " \\ space} up to the length bound; the LaTeX encoder on every string over {a ~ space # \\ {}; '
         'one-field databases over a pool of 43 values (braces, quotes, backslashes, $ ^, whitespace shapes, unbalanced, non-ASCII) x 3 formats (value as field and as preamble); '
-        'persons: 17 parsed names x 4 role spellings x 3 formats and all part lists over a pool of 8 tokens (empty, trailing backslash, ~, braced); '
+        'persons: 19 parsed names (parts of up to 6 tokens) x 4 role spellings x 3 formats and all part lists over a pool of 8 tokens (empty, trailing backslash, ~, braced); '
         'identifiers: 14 keys x 3 types x 5 field names x roles x formats/lower/repr; every chain of <= 3 formats x preserve_case. '
         'random: databases of 1-4 entries with 0-4 fields, 0-2 roles of 1-3 persons (parsed names or random token lists), optional preamble; '
         'malformed: unbalanced / un-normalised values, repeated keys and fields, persons with empty or spaced tokens; reader trees: the YAML / XML tree of random databases and token-level damaged copies; '
